@@ -1151,7 +1151,9 @@ class TransferManager(BaseManager):
         """
         try:
             await self._prepare_download_path(transfer)
-        except OSError:
+        except (OSError, ValueError):
+            # ValueError: the name chosen by the peer cannot be a path at all
+            # (embedded null character)
             logger.exception("failed to create path for download : %s", transfer)
             await connection.disconnect(CloseReason.REQUESTED)
             await transfer.state.fail(reason=FailReason.FILE_READ_ERROR)
